@@ -1457,7 +1457,7 @@ def gen_cases(rng, tier, scale=1.0):
         for _ in range(max(1, int((1 if quick else 2) * scale))):
             add_twin("A", sname, 2, max_pre=max_pre, cap=100 if quick else 400)
     for sname in (rng.sample(TWIN_SHAPES, 4) if quick else TWIN_SHAPES):
-        add_twin("B", sname, 2, max_pre=max_pre, nsched=20 if quick else 40)
+        add_twin("B", sname, 2, max_pre=max_pre, nsched=20 if quick else 30)
     # SerializableField items in collections: a constructing / assigning thread against a deserializing one (the
     # deserializer's pre-pass works on the same shared item Field objects), all on the same field
     def add_ops(stream, sname, ops, **kw):
@@ -1491,7 +1491,7 @@ def gen_cases(rng, tier, scale=1.0):
             add_ops("E", sname, ["deserialize", "deserialize", "construct"], max_pre=2, cap=200)
     for sname in (rng.sample(SER_SHAPES, 3) if quick else SER_SHAPES):
         add_ops("B", sname, [rng.choice(["construct", "deserialize", "serialize", "setattr"]) for _ in range(2)],
-                max_pre=max_pre, nsched=20 if quick else 50)
+                max_pre=max_pre, nsched=20 if quick else 40)
     # classes with mappers from a COLD start (fresh classes for every schedule): first (de)serializations race
     cold_e = rng.sample(COLD_SHAPES, 2) if quick else COLD_SHAPES
     for sname in COLD_SHAPES:
@@ -1499,7 +1499,7 @@ def gen_cases(rng, tier, scale=1.0):
             [["deserialize", "deserialize"], ["serialize", "deserialize"], ["serialize", "serialize"],
              ["construct", "deserialize"], ["deserialize", "serialize", "deserialize"]]
         for ops in mixes:
-            add_ops("B", sname, ops, max_pre=max_pre, nsched=20 if quick else 50)
+            add_ops("B", sname, ops, max_pre=max_pre, nsched=20 if quick else 35)
         if sname in cold_e:
             # exhaustively at every line of the functions that fill a module-level cache (translator rows); the
             # serialization and the deserialization side have separate caches: same-direction pairs
@@ -1517,9 +1517,9 @@ def gen_cases(rng, tier, scale=1.0):
         cases.append(c)
 
     for sname, share in (("shared_ref", ["currency"]), ("shared_ref", ["currency", "fallback"]), ("shared_default", [])):
-        add_shared("B", sname, share, max_pre=max_pre, nsched=20 if quick else 80)
+        add_shared("B", sname, share, max_pre=max_pre, nsched=20 if quick else 50)
         if not quick:
-            add_shared("B", sname, share, n=3, max_pre=max_pre, nsched=60)
+            add_shared("B", sname, share, n=3, max_pre=max_pre, nsched=40)
         add_shared("E", sname, share, max_pre=1 if quick else 2, cap=200, **{"yield": "sitelines"})
     # a warm-up history that fills the process-wide caches (many ad-hoc mappers), then a cached serialization against one
     # with a not-yet-cached ad-hoc mapper; exhaustive at every line of the cache functions + line-level sampling
@@ -1546,9 +1546,9 @@ def gen_cases(rng, tier, scale=1.0):
             else:
                 ths.append({"op": op, "kw": {g: gen_value(rng, sname, g, bad=0.0 if op == "serialize" else 0.1) for g in fs}})
         cases.append({"stream": "B", "shape": sname, "threads": ths, "sseed": rng.randrange(1 << 30),
-                      "max_pre": max_pre, "nsched": 40 if quick else 150})
+                      "max_pre": max_pre, "nsched": 40 if quick else 100})
     reps_b = max(1, int((1 if quick else 4) * scale))
     for sname in (rng.sample(ALL_SHAPES, 18) if quick else ALL_SHAPES):
         for _ in range(reps_b):
-            add("B", sname, 3 if rng.random() < 0.2 else 2, max_pre=max_pre, nsched=20 if quick else 50)
+            add("B", sname, 3 if rng.random() < 0.2 else 2, max_pre=max_pre, nsched=20 if quick else 35)
     return cases
